@@ -119,10 +119,11 @@ theorem good_apply (s : State) (m : Nat) (a : Act) (hr : racy s a = false) (hd :
         by_cases hn : hh - s.lastHeight = 0
         · rw [hn]; exact hx1
         · exact cleanup_keeps _ _ _ _ _ _ _ hx1 (by omega)
-      · obtain ⟨x, hx1, _, _⟩ := hfill (s.height + 1) (by omega) (by omega)
+      · obtain ⟨x, hx1, hx2, _⟩ := hfill (s.height + 1) (by omega) (by omega)
         right; right; right; left
         refine ⟨x, posOf s.cap (hh + 1), ?_⟩
-        simp only [lockSection, hhe, hx1]
+        have hng : ¬ x.idx > s.height + 1 := by omega
+        simp only [lockSection, hhe, hx1, hng, if_false]
     | holding b pos =>
       simp only [apply, runStep, hpc] at hlt hm ⊢
       constructor
@@ -181,8 +182,9 @@ theorem prog_haveH (s : State) (m h : Nat) (g : Good s m) (hlt : s.height < m) (
   have hhe := g.fresh.haveH h hpc
   obtain ⟨hfill, _⟩ := g.go hlt
   obtain ⟨x, hx1, hx2, hx3⟩ := hfill (s.height + 1) (by omega) (by omega)
+  have hng : ¬ x.idx > s.height + 1 := by omega
   have h1 : (runStep s).pc = .holding x (posOf s.cap (h + 1)) ∧ (runStep s).height = s.height := by
-    simp only [runStep, hpc, lockSection, hhe, hx1, and_self]
+    simp only [runStep, hpc, lockSection, hhe, hx1, hng, if_false, and_self]
   have h2 : (runStep (runStep s)).height = s.height + 1 := by
     rw [runStep, h1.1]
     simp only [addItem, accepts, hx3, hx2, h1.2, beq_self_eq_true, Bool.and_self, if_true]
